@@ -136,6 +136,45 @@ def Conn.reads : Nat → Conn → List Bytes
     | (some b, t') => b :: Conn.reads n t'
     | (none, _) => []
 
+/-! ### `Read(n)`: the read size
+
+`Telnet.Read(n)` as the code has it hands out the WHOLE `initialBuf` on the first call, whatever
+`n` is (`b := t.initialBuf; t.initialBuf = nil; return b, nil` — `n` is only used for the socket
+read), so the first read may be longer than `n`. Two other treatments of the buffer are modelled so
+that the conservation theorem and its negative witness can be stated: handing out at most `n`
+bytes and KEEPING the rest for the next call (also correct), and copying at most `n` bytes and
+dropping the rest (loses data). A socket read of size `n` returns at most `n` bytes of the next
+pending chunk and leaves the remainder of that chunk pending. -/
+
+inductive BufPolicy
+  | whole     -- the code: return initialBuf, ignore n
+  | keepRest  -- return initialBuf[:n], keep initialBuf[n:]
+  | dropRest  -- copy(b[:n], initialBuf); initialBuf = nil
+deriving DecidableEq, Repr
+
+def Conn.readN (p : BufPolicy) (n : Nat) (t : Conn) : Option Bytes × Conn :=
+  if t.initialBuf.length > 0 then
+    match p with
+    | .whole => (some t.initialBuf, { t with initialBuf := [] })
+    | .keepRest => (some (t.initialBuf.take n), { t with initialBuf := t.initialBuf.drop n })
+    | .dropRest => (some (t.initialBuf.take n), { t with initialBuf := [] })
+  else match t.sock with
+    | [] => (none, t)
+    | c :: cs =>
+      if c.length ≤ n then (some c, { t with sock := cs })
+      else (some (c.take n), { t with sock := c.drop n :: cs })
+
+/-- the results of the first `k` successful `Read(n)` calls -/
+def Conn.readsN (p : BufPolicy) (n : Nat) : Nat → Conn → List Bytes
+  | 0, _ => []
+  | k + 1, t =>
+    match t.readN p n with
+    | (some b, t') => b :: Conn.readsN p n k t'
+    | (none, _) => []
+
+/-- enough calls to drain everything: every successful read of size ≥ 1 lowers this number -/
+def Conn.size (t : Conn) : Nat := t.initialBuf.length + (t.sock.map fun c => c.length + 1).sum
+
 /-! ## Specification: RFC 854 token stream -/
 
 inductive Verb | DO | DONT | WILL | WONT
